@@ -9887,6 +9887,7 @@ class Parser:
 
         options = []
         while self._curr and not self._match(TokenType.R_PAREN, advance=False):
+            index = self._index
             option = self._parse_var(any_token=True)
             prev = self._prev.text.upper()
 
@@ -9918,6 +9919,10 @@ class Parser:
 
             if sep:
                 self._match(sep)
+
+            if self._index == index:
+                # Nothing was consumed (e.g. a reserved token): stop instead of looping forever
+                break
 
         return options
 
